@@ -46,10 +46,27 @@ def _templates(et, dim, tier, beam=False):
     th = tier == "thorough"
     if dim == 1:
         # "welded": two collinear members meshed by Mesh_Beams (each keeps its own joint node) and tied by add_connection_fixed
-        return ["n2", "n3g", "n1"] + (["gmsh", "welded"] if beam else [])
+        return ["n2", "n3g", "n1"] + (["gmsh", "welded"] if beam else (["curved"] if _curvable(et) else []))
     if isinstance(et, (list, tuple)):
-        return ["t2", "two", "dist2"] if dim == 2 else ["conf2", "conf1"]
+        return (["t2", "two", "dist2"] if dim == 2 else ["conf2", "conf1"]) + (["curved"] if _curvable(et) else [])
     t = Z.topo(et)
+    if _curvable(et):
+        # "curved": interior mid-side / face / volume nodes displaced (ZooMesh.curved): non-constant Jacobian inside simplices,
+        # non-multilinear quadrangles / hexahedra; the domain and its boundary are unchanged
+        return _templates_straight(et, dim, tier, t) + ["curved"]
+    return _templates_straight(et, dim, tier, t)
+
+
+def _curvable(et):
+    """element types (or same-order pairs) of order >= 2 whose stiffness rule integrates cof(J) grad N exactly on curved elements:
+    all of them but TETRA10 (4-point rule of degree 2 against an integrand of degree 3: the patch test on curved tetrahedra is
+    only passed to O(curvature), which is outside the property - it speaks of straight-sided / affinely distorted meshes)."""
+    ets = et if isinstance(et, (list, tuple)) else [et]
+    return all(Z.proto(e).order >= 2 and e != "TETRA10" for e in ets)
+
+
+def _templates_straight(et, dim, tier, t):
+    th = tier == "thorough"
     if dim == 2:
         # "mirrormerge": a part and its mirror image merged into one conforming mesh (the mirrored elements are numbered clockwise:
         # element orientation is not uniform inside the group)
@@ -210,7 +227,7 @@ def _template(case, dim):
     m = case["mesh"]
     first = ets[0] if isinstance(ets, tuple) else ets
     t = Z.topo(first)
-    if dim == 1:
+    if dim == 1 and m != "curved":
         zm = {"n2": lambda: Z.template_1d(ets, 2, False, BEAM_L), "n3g": lambda: Z.template_1d(ets, 3, True, BEAM_L),
               "n1": lambda: Z.template_1d(ets, 1, False, BEAM_L)}[m]()
         return zm, None
@@ -224,6 +241,12 @@ def _template(case, dim):
         zm = Z.zoo_from_mesh(mesh, {k: v for k, v in ex.items() if k in ("measure", "dim")}, name=f"gmsh[{ets},{poly}]")
         zm.boundary = Z.compute_boundary(zm.coords, zm.groups)  # by face counting, independent of the physical groups
         return zm, mesh
+    if m == "curved":
+        if dim == 1:
+            return Z.template_1d(ets, 2, False, BEAM_L).curved(), None
+        if isinstance(ets, tuple) and dim == 3:
+            return R.mixed3d_conforming(ets, 2).curved(), None
+        return (Z.template_2d(ets, k=2) if dim == 2 else Z.template_3d(ets, k=2)).curved(), None
     if m == "mirrormerge":
         from EasyFEA.FEM._mesh import Mesh
 
